@@ -140,6 +140,8 @@ var errorSiteSeeds = []string{
 	"|", "a|", "|a", "a||", "||a", "a&&", "&&a", "&", "&a", "a&b", "!", "a!", "a!b", "==", "a==", "==a", "a<", "<a", "a<>b",
 	"*a", "a*", "a.*b", "**", "*.*.", "a[*]b", "a[*](", "a[*].", "a[*][b]", "*[a]", "a[][b]",
 	"@a", "a@", "@@", "0", "a 0", "a b", "'a' 'b'", "`1` `2`", "a 'b'",
+	"\"\xff\xff\"(", "foo.\"\xe2\x82\"(", "sort_by(@, &\"\x80\xbf\xc0\"(", "\"\xff\xff\xff\xff\"(a", "\"é\"(", "\"\xff\"", "\"\xff\xff\".", "{\"\xff\xff\"", "\"\xff\xff\" \"\xff\"",
+	"'\xff\xff", "`\xff\xff", "a.\xff\xff", "[\xff\xff]",
 }
 
 func c17(r *mon.Run) {
